@@ -362,6 +362,35 @@ def work_multi_entry(chunk, st):
                 if doc.get('target') != '%s:%d' % (host, eport) or doc.get('banner', {}).get('raw') != want_banner:
                     st.violation('%s:report-label-or-content-of-another-target' % tag, dict(d, target=doc.get('target'), banner=doc.get('banner', {}).get('raw'),
                                                                                         expected=['%s:%d' % (host, eport), want_banner]))
+        # the text renderings: every block carries the label of its target and the banner of the server that answered under that label
+        for topts in (['-b'], ['-b', '-l', 'fail'], ['-l', 'warn'], ['-v']):
+            w = vnet.World(servers=servers, resolver=resolver)
+            path = H.tmp_path('c18-multi.txt')
+            with open(path, 'w') as f:
+                f.write(''.join(l + '\n' for l in lines))
+            res = runner.run_cli(['-n', '--skip-rate-test', '-T', path, '--threads', '1'] + (['-p', str(popt)] if popt else []) + topts, w)
+            st.execution(w, outcome=('multi-entry-text', len(ents), res.status, tuple(topts)), root=('multi-entry-text', ents, popt, tuple(topts)), nontrivial=('multi-entry-text', ents, popt, tuple(topts)))
+            d = {'lines': lines, 'p': popt, 'status': res.status, 'options': topts}
+            if res.exc or res.hang:
+                st.violation('multi-entry:text:escaped-exception-or-hang', dict(d, exc=res.exc, hang=res.hang))
+                continue
+            from mc import report as _report
+            blocks = _report.split_targets(res.stdout)
+            want = {}
+            for host, ip, eport, kind in expect:
+                want[label_text(kind, host, eport)] = 'Srv_%s_%d' % (ip.replace(':', 'x').replace('.', 'x'), eport)
+            seen = {}
+            for b in blocks:
+                labels = [l.split('target: ', 1)[1].strip() for l in b.split('\n') if l.startswith('(gen) target: ')]
+                if len(labels) != 1:
+                    st.violation('multi-entry:text:block-with-%d-target-labels:%s' % (len(labels), ' '.join(topts)), dict(d, block_head=b[:200]))
+                    continue
+                seen[labels[0]] = b
+            for lab, mark in want.items():
+                if lab in seen and mark not in seen[lab] and '-l' not in topts:
+                    st.violation('multi-entry:text:report-of-another-target-under-this-label:%s' % ' '.join(topts), dict(d, label=lab, expected_banner_mark=mark))
+                if lab not in seen and len(blocks) == len(expect) and not any(len([l for l in b.split('\n') if l.startswith('(gen) target: ')]) != 1 for b in blocks):
+                    st.violation('multi-entry:text:no-block-labelled-with-this-target:%s' % ' '.join(topts), dict(d, label=lab, labels=sorted(seen)))
     st.sample({'targets_file': [spellings('name', h, p)[-1][1] if ':' not in h else h for h, p in chunk[0][0]], 'p': chunk[0][1]}, cap=8)
 
 
